@@ -21,8 +21,15 @@ import (
 	"time"
 )
 
-const BinDir = "/verif/.build/bin"
-const RaceBinDir = "/verif/.build/bin-race"
+var BinDir = envOr("VERIF_BIN_DIR", "/verif/.build/bin")
+var RaceBinDir = envOr("VERIF_RACE_BIN_DIR", "/verif/.build/bin-race")
+
+func envOr(k, d string) string {
+	if v := os.Getenv(k); v != "" {
+		return v
+	}
+	return d
+}
 
 var seq int64
 var baseDir string
